@@ -443,7 +443,7 @@ func main() {
 				o.Tree, o.IDs = "", nil
 			}
 			enc.Encode(o)
-			for v := 0; v < *variants && (withTree || in.name == deepNestName); v++ {
+			for v := 0; v < *variants && (withTree || (in.name == deepNestName && v < 2)); v++ {
 				// a walk that starts from an arbitrary context, and one whose callback panics somewhere
 				init := event{Dead: rng.Intn(2) == 0, Func: -1, Path: []int{o.Nodes + 5, o.Nodes + 6}[:rng.Intn(3)]}
 				if rng.Intn(2) == 0 {
